@@ -99,6 +99,36 @@ fn check_all(source: &str, order: &[usize], generator: &str) -> Result<Option<bo
     }
 }
 
+/// the construct sits in a required module only: the entry is plain Lua 5.1 and the rules run on the
+/// bundle (their context still describes the entry file)
+fn check_all_bundled(module: &str, order: &[usize], generator: &str) -> Result<Option<bool>, String> {
+    let rules: Vec<String> = order.iter().map(|i| RULES[*i].1.to_string()).collect();
+    let config_text = dl::config_text(&rules, generator).replacen('{', "{ bundle: { require_mode: \"path\" },", 1);
+    let config = dl::parse_config(&config_text).map_err(|e| format!("harness: configuration rejected: {}", e))?;
+    // the generated tree becomes the body of a function of the module, which returns that function
+    let module_text = format!("local function body(...)\n{}\nend\nreturn body\n", module);
+    if relaxed(&module_text, Mode::Luau).is_err() {
+        return Ok(None);
+    }
+    let files = vec![("src/main.lua".to_string(), "local m = require(\"./m\")\nreturn m\n".to_string()), ("src/m.lua".to_string(), module_text.clone())];
+    let (resources, errs) = match dl::process_project(&files, "src/main.lua", "out/main.lua", config) {
+        Ok(r) => r,
+        Err(dl::DlError::Process(_)) => return Ok(None),
+        Err(e) => return Err(format!("{}", e)),
+    };
+    if !errs.is_empty() {
+        return Ok(None);
+    }
+    let out = resources.get("out/main.lua").map_err(|_| "no bundle written and no error reported".to_string())?;
+    match relaxed(&out, Mode::Lua51) {
+        Ok(_) => Ok(Some(true)),
+        Err(e) => Err(format!(
+            "after bundling and all lowering rules the output is not accepted by the strict Lua 5.1 grammar: {} (line {})\n--- config\n{}\n--- src/main.lua requires src/m.lua:\n{}\n--- output\n{}",
+            e.msg, e.line, config_text, module_text, out
+        )),
+    }
+}
+
 fn gen_source(t: &mut Tape, all_rules: bool) -> String {
     let mut so = SynOpts::luau();
     if all_rules {
@@ -180,6 +210,17 @@ fn run(ctx: &RunCtx) {
         if avoid_unicode && !source.is_ascii() && (!g.contains("retain_lines") || non_ascii_in_backticks()) {
             return CaseResult::Discard("avoided: known finding unicode-escape-not-lua51");
         }
+        // one case in five goes through the bundler instead (the program as a required module)
+        if t.bool(50) {
+            return match check_all_bundled(&source, &order, &g) {
+                Ok(None) => CaseResult::Discard("darklua rejects the project"),
+                Ok(Some(_)) => {
+                    st.class("all_rules_bundled_case");
+                    CaseResult::Pass { nontrivial: Some(hash_str(&source)) }
+                }
+                Err(m) => CaseResult::Fail(Failure::new(m, json!({"kind": "all_bundled", "source": source, "order": order, "generator": g}))),
+            };
+        }
         match check_all(&source, &order, &g) {
             Ok(None) => CaseResult::Discard("darklua rejects the input"),
             Ok(Some(_)) => {
@@ -200,6 +241,10 @@ fn replay(v: &Value) -> Result<(), String> {
             let rule = v.get("rule").and_then(|s| s.as_str()).ok_or("malformed C07 replay")?;
             let rule_json = v.get("rule_json").and_then(|s| s.as_str()).ok_or("malformed C07 replay")?;
             check_single(source, rule, rule_json, g).map(|_| ())
+        }
+        Some("all_bundled") => {
+            let order: Vec<usize> = v.get("order").and_then(|o| o.as_array()).ok_or("malformed C07 replay")?.iter().filter_map(|x| x.as_u64().map(|n| n as usize)).collect();
+            check_all_bundled(source, &order, g).map(|_| ())
         }
         Some("all") => {
             let order: Vec<usize> = v.get("order").and_then(|o| o.as_array()).ok_or("malformed C07 replay")?.iter().filter_map(|x| x.as_u64().map(|n| n as usize)).collect();
